@@ -519,6 +519,7 @@ def r186(ctx, repo):
             todo += list(deps.get(n, ()))
         return seen
     calls = find_calls(gv, name="vol_revolve")
+    bad = []
     for i, c in enumerate(calls):
         r = kwarg(c, "r", 0)
         z = kwarg(c, "z", 1)
@@ -526,15 +527,16 @@ def r186(ctx, repo):
             raise AnalysisError("get_volume: vol_revolve arguments")
         fr = MARK in closure(names_in(r))
         fz = MARK in closure(names_in(z))
-        ok = fr == fz
-        ctx.ob("R18.6", ok,
-               "r and z both derive from the (possibly re-oriented) "
-               "coordinate pair" if ok else
-               f"with fix_orientation the radial argument `{txt(r)}` follows "
-               f"the re-oriented contour but the axial argument `{txt(z)}` "
-               f"does not: a reversed r is paired with an un-reversed z",
-               node=c,
-               label=f"vol_revolve call #{i + 1} r/z orientation-consistent")
+        if fr != fz:
+            bad.append((i + 1, r, z) if fr else (i + 1, z, r))
+    ctx.ob("R18.6", not bad,
+           f"r and z of all {len(calls)} vol_revolve calls derive from the "
+           f"(possibly re-oriented) coordinate pair" if not bad else
+           f"with fix_orientation `{txt(bad[0][1])}` follows the re-oriented "
+           f"contour but its partner `{txt(bad[0][2])}` does not (call "
+           f"{', '.join('#%d' % b[0] for b in bad)}): a reversed coordinate "
+           f"is paired with an un-reversed one", node=calls[0],
+           label="vol_revolve r/z orientation-consistent")
     # reversal of the lower half applies to both coordinates
     c2 = calls[1] if len(calls) > 1 else None
     if c2 is not None:
@@ -628,11 +630,6 @@ def _inv(m):
                 c = -c
             out[i][j] = c / det
     return L.Mat(out)
-
-
-def _arith(v):
-    """let plain numbers take part in Rat arithmetic"""
-    return v
 
 
 def r185(ctx, repo):
@@ -908,7 +905,7 @@ def run(ctx):
     ctx.rule("R18.5", "crosstalk correction inverts the documented "
              "spill-over exactly", minimum=10)
     ctx.rule("R18.6", "r and z of each vol_revolve call follow the same "
-             "orientation; the mirrored half is reversed", minimum=5)
+             "orientation; the mirrored half is reversed", minimum=4)
     ctx.rule("R18.7", "axis-swap symmetry of contour moments", minimum=20)
     r181(ctx, repo)
     r182(ctx, repo)
